@@ -325,6 +325,23 @@ func c19Ctors(c *Ctx, infos []mappingInfo) {
 			r := p.RetT[0]
 			found = r.Key()
 			ok = r.Op == "extract" && r.Sym == "0" && r.Args[0].Op == "call" && r.Args[0].Sym == funcName(mi.ctor)
+			if ok && len(r.Args[0].Args) == 2 {
+				// the default offset is 0, or a function of the very gamma term handed over (1/log2(gamma) for the linear
+				// kind): a mapping built from an accuracy is then bit-identical to the one rebuilt from its (gamma, offset)
+				g, off := r.Args[0].Args[0], r.Args[0].Args[1]
+				offOK := off.isConst("0")
+				if !offOK {
+					sub := false
+					off.walk(func(x *Term) bool {
+						if x.Key() == g.Key() {
+							sub = true
+						}
+						return true
+					})
+					offOK = sub && off.isBin("/") && off.Args[0].isConst("1") && off.Args[1].Op == "call" && off.Args[1].Sym == "math.Log2" && off.Args[1].Args[0].Key() == g.Key()
+				}
+				c.R.check(offOK, rule, name+"/default-offset-from-gamma", shortFn(mi.accCtor), c.fpos(mi.accCtor), "the default offset is 0 or 1/math.Log2(gamma) of the same gamma term that is passed on (not a mathematically equal but differently rounded expression)", off.Key())
+			}
 		}
 		c.R.check(ok, rule, name+"/accuracy-ctor-uses-gamma-ctor", shortFn(mi.accCtor), c.fpos(mi.accCtor), "New"+name+"(alpha) returns the mapping built by "+funcName(mi.ctor), found)
 		// serialised fields are exactly the constructor parameters (done in mappingInfos) and are never rewritten (C14-D2 mapping-immutable)
